@@ -61,3 +61,127 @@ package consensus
 //@   modifies d.msg.signedBase, dspOther(other).msg.signedBase
 //@   ensures [onlyif] r ==> typeof(other) == typeid(ptr_dsProposal) && d != nil && dspOther(other) != nil && propConflict(d.msg, dspOther(other).msg)
 //@   ensures [if] typeof(other) == typeid(ptr_dsProposal) && d != nil && dspOther(other) != nil && propConflict(d.msg, dspOther(other).msg) ==> r
+
+// ---------------------------------------------------------------------------
+// C04: vote tallies report a 2/3 majority exactly when one exists
+// ---------------------------------------------------------------------------
+
+//@ property C04
+// vb_rdd(m): the round-decision digest of vote message m (by reference); votes held by a
+// vote set are not mutated (SetRoundDecision is only used while a vote is being built).
+//@ smt int (declare-fun vb_rdd (Int) BSeq)
+// cnt(M, d, k): number of slots s < k with M[s] != nil and digest(M[s]) == d.
+// The recursive definition is visible only while the counting lemmas are proved; function
+// VCs see an uninterpreted cnt plus the proved lemmas.
+//@ smt int lemma (define-fun-rec cnt ((M (Array Int Int)) (d BSeq) (k Int)) Int (ite (<= k 0) 0 (+ (cnt M d (- k 1)) (ite (and (not (= (select M (- k 1)) 0)) (= (vb_rdd (select M (- k 1))) d)) 1 0))))
+//@ smt int func (declare-fun cnt ((Array Int Int) BSeq Int) Int)
+//@ smt int lemma (define-fun-rec cntnn ((M (Array Int Int)) (k Int)) Int (ite (<= k 0) 0 (+ (cntnn M (- k 1)) (ite (not (= (select M (- k 1)) 0)) 1 0))))
+//@ smt int func (declare-fun cntnn ((Array Int Int) Int) Int)
+
+//@ spec votes(M, s, d) = (M[s] != 0 && vb_rdd(M[s]) == d) ? 1 : 0
+//@ spec nonnil(M, s) = (M[s] != 0) ? 1 : 0
+
+//@ lemma cnt_bounds int induction k : forall M intarr, d bseq :: {cnt(M, d, k)} 0 <= cnt(M, d, k) && cnt(M, d, k) <= k
+//@ lemma cnt_frame int induction k : forall M intarr, d bseq, i int, v int :: {cnt(store(M, i, v), d, k)} i >= k ==> cnt(store(M, i, v), d, k) == cnt(M, d, k)
+//@ lemma cnt_upd int use cnt_frame induction k : forall M intarr, d bseq, i int, v int :: {cnt(store(M, i, v), d, k)} {cnt(M, d, k), store(M, i, v)} 0 <= i && i < k ==>
+//@     cnt(store(M, i, v), d, k) == cnt(M, d, k) - votes(M, i, d) + ((v != 0 && vb_rdd(v) == d) ? 1 : 0)
+//@ lemma cntnn_bounds int induction k : forall M intarr :: {cntnn(M, k)} 0 <= cntnn(M, k) && cntnn(M, k) <= k
+//@ lemma cntnn_frame int induction k : forall M intarr, i int, v int :: {cntnn(store(M, i, v), k)} i >= k ==> cntnn(store(M, i, v), k) == cntnn(M, k)
+//@ lemma cntnn_upd int use cntnn_frame induction k : forall M intarr, i int, v int :: {cntnn(store(M, i, v), k)} 0 <= i && i < k ==>
+//@     cntnn(store(M, i, v), k) == cntnn(M, k) - nonnil(M, i) + ((v != 0) ? 1 : 0)
+//@ lemma cnt_two int induction k : forall M intarr, d1 bseq, d2 bseq :: {cnt(M, d1, k), cnt(M, d2, k)} d1 != d2 ==> cnt(M, d1, k) + cnt(M, d2, k) <= cntnn(M, k)
+//@ lemma cnt_le_nn int induction k : forall M intarr, d bseq :: {cnt(M, d, k)} cnt(M, d, k) <= cntnn(M, k)
+//@ lemma cnt_slot int use cnt_bounds induction k : forall M intarr, d bseq, s int :: {cnt(M, d, k), vb_rdd(M[s])} 0 <= s && s < k && M[s] != 0 && vb_rdd(M[s]) == d ==> cnt(M, d, k) >= 1
+//@ lemma two_thirds int : forall c int, n int :: n >= 0 ==> ((c > n*2/3) == (3*c > 2*n))
+
+//@ func (v *voteBase) RoundDecisionDigest() (d)
+//@   trusted
+//@   modifies v.decisionDigest
+//@   ensures seq(d) == vb_rdd(owner(v)) && d != nil
+
+//@ func (ida *PartSetIDAndAppData) ID() (id)
+//@   trusted
+//@   pure
+//@   ensures ida == nil ==> id == nil
+
+//@ spec baOK(ba) = ba != nil && ba.NumBits >= 0 && ba.NumBits < 0x7fffffffffffff00 && (ba.NumBits + 63) / 64 <= len(ba.Words)
+
+//@ func (ba *BitArray) Set(idx)
+//@   arith bv
+//@   requires baOK(ba) && idx >= 0
+//@   modifies ba.Words[*]
+//@   ensures baOK(ba)
+
+//@ func NewBitArray(n) (ba)
+//@   arith bv
+//@   requires n >= 0 && n < 0x7fffffffffffff00
+//@   ensures baOK(ba) && fresh(ba) && ba.NumBits == n
+
+// Abstract view of a vote set: M = backing array of msgs (slot -> message reference), n = number
+// of slots, dg(i) = digest recorded in counter i, tally(d) = number of slots voting for d.
+//@ spec vsM(vs) = arr(vs.msgs)
+//@ spec vsN(vs) = len(vs.msgs)
+//@ spec vsDg(vs, i) = seq(vs.counters[i].roundDecisionDigest)
+//@ spec tally(vs, d) = cnt(vsM(vs), d, vsN(vs))
+//@ spec vsShape(vs) = vs != nil && baOK(vs.mask) && off(vs.msgs) == 0 && vs.msgs != nil && off(vs.counters) == 0
+//@ spec vsCounts(vs) = forall i int :: 0 <= i && i < len(vs.counters) ==> vs.counters[i].count == tally(vs, vsDg(vs, i)) && vs.counters[i].count >= 1 && vs.counters[i].roundDecisionDigest != nil
+//@ spec vsDistinct(vs) = forall i int, j int :: 0 <= i && i < j && j < len(vs.counters) ==> vsDg(vs, i) != vsDg(vs, j)
+//@ spec vsCover(vs) = forall d bseq :: tally(vs, d) >= 1 ==> (exists i int :: 0 <= i && i < len(vs.counters) && vsDg(vs, i) == d)
+//@ spec vsTotal(vs) = vs.count == cntnn(vsM(vs), vsN(vs))
+//@ spec vsMax(vs) = vs.maxIndex < 0 || (vs.maxIndex < len(vs.counters) && (forall i int :: 0 <= i && i < len(vs.counters) ==> vs.counters[i].count <= vs.counters[vs.maxIndex].count))
+//@ spec vsInv(vs) = vsShape(vs) && vsCounts(vs) && vsDistinct(vs) && vsCover(vs) && vsTotal(vs) && vsMax(vs)
+
+//@ func (vs *voteSet) hasOverTwoThirds() (r)
+//@   pure
+//@   requires vsInv(vs)
+//@   ensures r == (3 * cntnn(vsM(vs), vsN(vs)) > 2 * vsN(vs))
+
+//@ func (vs *voteSet) getOverTwoThirdsRoundDecisionDigest() (d, psid, ok)
+//@   requires vsInv(vs)
+//@   modifies vs.maxIndex
+//@   use cnt_bounds, two_thirds
+//@   ensures [shape] vsShape(vs)
+//@   ensures [counts] vsCounts(vs)
+//@   ensures [distinct] vsDistinct(vs)
+//@   ensures [cover] vsCover(vs)
+//@   ensures [total] vsTotal(vs)
+//@   ensures [max] vsMax(vs)
+//@   ensures [sound] ok ==> 3 * tally(vs, seq(d)) > 2 * vsN(vs)
+//@   ensures [which] ok ==> vs.maxIndex >= 0 && vs.maxIndex < len(vs.counters) && seq(d) == vsDg(vs, vs.maxIndex)
+//@   ensures [nonnil] ok ==> d != nil
+//@   ensures [complete] !ok ==> (forall e bseq :: 3 * tally(vs, e) <= 2 * vsN(vs))
+//@   ensures [nilout] !ok ==> d == nil && psid == nil
+//@   loop 0: invariant -1 <= rangeindex && rangeindex < len(vs.counters) && max >= 0
+//@   loop 0: invariant forall i int :: 0 <= i && i <= rangeindex ==> vs.counters[i].count <= max
+//@   loop 0: invariant vs.maxIndex < 0 ==> max == 0
+//@   loop 0: invariant vs.maxIndex >= 0 ==> vs.maxIndex <= rangeindex && vs.counters[vs.maxIndex].count == max
+
+//@ spec eqExcept(a, b) = a.Height == b.Height && a.Round == b.Round && a.Type == b.Type && vb_rdd(ref(a)) == vb_rdd(ref(b)) && a.Timestamp == b.Timestamp
+
+//@ func (vs *voteSet) add(index, v) (added)
+//@   opt nomerge
+//@   requires vsInv(vs) && 0 <= index && index < len(vs.msgs) && v != nil
+//@   modifies vs.msgs[*], vs.counters, vs.counters[*], vs.count, vs.maxIndex, vs.round, vs.mask.Words[*], v.voteBase, vs.msgs[index].voteBase
+//@   use cnt_bounds, cnt_upd, cntnn_upd, cnt_two, cnt_le_nn, cnt_slot, two_thirds, cntnn_bounds
+//@   ensures [shape] vsShape(vs) && vsN(vs) == old(vsN(vs)) && ref(vs.msgs) == old(ref(vs.msgs))
+//@   ensures [counts] vsCounts(vs)
+//@   ensures [distinct] vsDistinct(vs)
+//@   ensures [cover] vsCover(vs)
+//@   ensures [total] vsTotal(vs)
+//@   ensures [max] vsMax(vs)
+//@   ensures [view_added] added ==> vsM(vs) == store(old(vsM(vs)), index, ref(v))
+//@   ensures [view_kept] !added ==> vsM(vs) == old(vsM(vs))
+//@   ensures [when_added] added ==> (old(vs.msgs[index]) == nil || !(eqExcept(old(vs.msgs[index]), v) || 3 * old(tally(vs, vb_rdd(ref(vs.msgs[index])))) > 2 * vsN(vs)))
+//@   ensures [when_kept] !added ==> old(vs.msgs[index]) != nil && (eqExcept(old(vs.msgs[index]), v) || 3 * old(tally(vs, vb_rdd(ref(vs.msgs[index])))) > 2 * vsN(vs))
+//@   ensures [sticky] forall d bseq :: 3 * old(tally(vs, d)) > 2 * vsN(vs) ==> 3 * tally(vs, d) > 2 * vsN(vs)
+//@   loop 0: invariant -1 <= rangeindex && rangeindex < len(vs.counters)
+//@   loop 0: invariant forall i int :: 0 <= i && i <= rangeindex ==> vsDg(vs, i) != vb_rdd(ref(omsg))
+//@   loop 0: invariant vsShape(vs) && vsCounts(vs) && vsDistinct(vs) && vsCover(vs) && vsTotal(vs) && vsM(vs) == old(vsM(vs)) && ref(vs.msgs) == old(ref(vs.msgs)) && vsN(vs) == old(vsN(vs))
+// mid-point (holds while loop 1 searches): the counters describe the slots with slot `index` taken out
+//@   loop 1: invariant -1 <= rangeindex && rangeindex < len(vs.counters) && !found
+//@   loop 1: invariant forall i int :: 0 <= i && i <= rangeindex ==> vsDg(vs, i) != vb_rdd(ref(v))
+//@   loop 1: invariant vsShape(vs) && ref(vs.msgs) == old(ref(vs.msgs)) && vsN(vs) == old(vsN(vs)) && vsM(vs) == store(old(vsM(vs)), index, ref(v))
+//@   loop 1: invariant forall i int :: 0 <= i && i < len(vs.counters) ==> vs.counters[i].count == cnt(store(vsM(vs), index, 0), vsDg(vs, i), vsN(vs)) && vs.counters[i].count >= 1 && vs.counters[i].roundDecisionDigest != nil
+//@   loop 1: invariant vsDistinct(vs)
+//@   loop 1: invariant forall d bseq :: cnt(store(vsM(vs), index, 0), d, vsN(vs)) >= 1 ==> (exists i int :: 0 <= i && i < len(vs.counters) && vsDg(vs, i) == d)
+//@   loop 1: invariant vs.count == cntnn(store(vsM(vs), index, 0), vsN(vs))
